@@ -273,14 +273,202 @@ def corrupt(rng, doc):
     return doc[:a] + doc[b:a:-1] + doc[b + 1:] if rng.random() < 0.3 else doc[:a] + doc[b:]
 
 
+
+# ------------------------------------------------------------------ history sensitivity and optional parameters
+def all_nodes(n):
+    yield n
+    for c in n.children:
+        yield from all_nodes(c)
+
+
+def node_path(root, n):
+    path = []
+    while n is not root:
+        path.insert(0, n.parent.children.index(n))
+        n = n.parent
+    return path
+
+
+def edit_in_place(rng, root, tag):
+    """1-3 random in-place edits through the public Node API; returns their descriptions."""
+    from metapype.model.node import Node, Shift
+    ops = []
+    for i in range(rng.randrange(1, 4)):
+        n = rng.choice(list(all_nodes(root)))
+        where = node_path(root, n)
+        r = rng.randrange(9)
+        if r == 0:
+            n.content = gen_content(rng)
+            ops.append(["content", where, n.content])
+        elif r == 1 and n is not root:
+            n.tail = gen_content(rng)
+            ops.append(["tail", where, n.tail])
+        elif r == 2:
+            k, v = X.rand_name(rng), X.rand_text(rng, attr=True)
+            n.add_attribute(k, v)
+            ops.append(["add_attribute", where, k, v])
+        elif r == 3 and n.attributes:
+            k = rng.choice(list(n.attributes))
+            n.remove_attribute(k)
+            ops.append(["remove_attribute", where, k])
+        elif r == 4:
+            n.name = X.rand_name(rng)
+            ops.append(["name", where, n.name])
+        elif r == 5:
+            pfx, uri = rng.choice(PREFIXES), rng.choice(X.URIS)
+            n.add_namespace(pfx, uri)
+            ops.append(["add_namespace", where, pfx, uri])
+        elif r == 6:
+            c = Node(X.rand_name(rng), id="%s-e%d" % (tag, i), content=gen_content(rng))
+            n.add_child(c)
+            ops.append(["add_child", where, c.name, c.content])
+        elif r == 7 and n.children:
+            j = rng.randrange(len(n.children))
+            n.remove_child(n.children[j])
+            ops.append(["remove_child", where, j])
+        elif r == 8 and n.children:
+            j = rng.randrange(len(n.children))
+            d = rng.choice(list(Shift))
+            n.shift(n.children[j], d, sib=False)
+            ops.append(["shift", where, j, d.name])
+    return ops
+
+
+def in_general_class(sn, parent_keys=None):
+    """the precondition class of the general exporter, on a snapshot (names come from the legal pools)"""
+    if parent_keys is None:
+        if sn["tail"] is not None:          # no tail on the root
+            return False
+        parent_keys = ()
+    ns = dict(sn["nsmap"])
+    if any(k not in ns for k in parent_keys):
+        return False
+    if sn["prefix"] is not None and sn["prefix"] not in ns:
+        return False
+    ex = [X.expand(k, ns) for k, _ in sn["extras"]]
+    if None in ex or len(set(ex)) != len(ex):
+        return False
+    if any(k in ("xmlns",) or ":" in k for k, _ in sn["attrs"]):
+        return False
+    return all(in_general_class(k, list(ns)) for k in sn["kids"])
+
+
+def history_phase(ctx, io, export, thorough):
+    """The models are pure functions of the tree; this phase tests that the implementation is too:
+    repeated calls, calls after in-place edits (against a freshly built identical tree), calls
+    interleaved with other trees / the other exporter / an import, a fresh interpreter in another
+    order, and every optional parameter. Returns extra (B) cases for the parameterised models."""
+    rng = ctx.rng
+    n_hist = 300 if thorough else 70
+    alive = []          # (node, first general output, first eml output, snapshot) kept across the phase
+    pcases, pwants, pmeta = [], [], []      # run_to_xml_p
+    lcases, lwants, lmeta = [], [], []      # run_eml_l
+    for i in range(n_hist):
+        sn0 = gen_tree(rng, [0], 3, None, True, True) if rng.random() < 0.7 else gen_eml_tree(rng, [0], 3, True, False)
+        node = NL.build(sn0, attach=False)
+        sn = NL.snapshot(node)
+        o1 = io.to_xml(node)
+        e1 = export.to_xml(node)
+        rep = {"kind": "history", "tree": X.strip_ids(sn)}
+        ctx.case(("hist", o1), True)
+        # (a) the same object again, after the other exporter ran, after an import ran
+        io.from_xml("<r xmlns:p='urn:hist'><p:c p:a='1'> x </p:c></r>")
+        if io.to_xml(node) != o1 or io.to_xml(node, None, 0, False) != o1 or io.to_xml(node=node, skip_ns=False, level=0, parent=None) != o1:
+            ctx.fail("C07:history:repeat", "metapype_io.to_xml gives different output for the same unchanged tree on a second call",
+                     dict(rep, first=o1, second=io.to_xml(node)))
+        if export.to_xml(node) != e1 or export.to_xml(node, 0) != e1 or export.to_xml(level=0, node=node) != e1:
+            ctx.fail("C07:history:repeat-eml", "export.to_xml gives different output for the same unchanged tree on a second call",
+                     dict(rep, first=e1, second=export.to_xml(node)))
+        if NL.snapshot(node) != sn:
+            ctx.fail("C07:history:export-mutates", "exporting changed the tree", dict(rep, after=X.strip_ids(NL.snapshot(node))))
+        # (b) every optional parameter: sub-tree with its parent and level, skip_ns, level of the root
+        nodes = list(all_nodes(node))
+        for n in rng.sample(nodes, min(len(nodes), 3)):
+            path = node_path(node, n)
+            sub = NL.snapshot(n)
+            skip = rng.random() < 0.4
+            if n is node:
+                level = rng.choice([0, 1, 2, 5])
+                got = io.to_xml(n, None, level, skip)
+                pm = "None"
+            else:
+                level = len(path) if rng.random() < 0.7 else rng.choice([0, 3])
+                got = io.to_xml(n, n.parent, level, skip)
+                pm = "(Some " + NL.coq_dict(NL.snapshot(n.parent)["nsmap"]) + ")"
+                if level == len(path) and not skip and got not in o1:
+                    ctx.fail("C07:history:subtree", "to_xml(child, parent, level) is not the child's part of to_xml(root)",
+                             dict(rep, path=path, child_output=got, root_output=o1))
+            if skip and "xmlns:" in got:
+                ctx.fail("C07:param:skip_ns", "to_xml(..., skip_ns=True) wrote a namespace declaration",
+                         dict(rep, path=path, level=level, output=got))
+            if io.to_xml(skip_ns=skip, level=level, parent=(None if n is node else n.parent), node=n) != got:
+                ctx.fail("C07:history:kwargs", "keyword and positional calls of to_xml differ", dict(rep, path=path))
+            pcases.append("(" + pm + ", " + common.cnat(level) + ", " + common.cbool(skip) + ", " + NL.coq_ftree(sub) + ")")
+            pwants.append(cstr(got))
+            pmeta.append({"tree": X.strip_ids(sub), "level": level, "skip_ns": skip, "parent_nsmap": None if n is node else NL.snapshot(n.parent)["nsmap"], "output": got})
+            lv = rng.choice([0, 1, 2, 4])
+            gote = export.to_xml(n, lv)
+            lcases.append("(" + common.cnat(lv) + ", " + NL.coq_ftree(sub) + ")")
+            lwants.append(cstr(gote))
+            lmeta.append({"tree": X.strip_ids(sub), "level": lv, "output": gote})
+            ctx.case(("param", got, gote), True)
+        # the statement with a non-default level, and with skip_ns on a tree without namespaces
+        if in_general_class(sn) and "eml:" not in o1:
+            lvl = rng.choice([1, 3])
+            check_general(ctx, sn, io.to_xml(node, None, lvl), -2)
+            if all(not s["nsmap"] and s["prefix"] is None and not s["extras"] for s in flatten(sn)):
+                check_general(ctx, sn, io.to_xml(node, skip_ns=True), -3)
+        # (c) in-place edits: the used tree must export like a freshly built identical tree
+        ops = edit_in_place(rng, node, "h%d" % i)
+        sn2 = NL.snapshot(node)
+        o2 = io.to_xml(node)
+        e2 = export.to_xml(node)
+        fresh = NL.build(sn2, attach=False)
+        o2f = io.to_xml(fresh)
+        e2f = export.to_xml(fresh)
+        rep2 = {"kind": "history", "tree_before": X.strip_ids(sn), "edits": ops, "tree_after": X.strip_ids(sn2)}
+        ctx.case(("edit", o2), True)
+        if o2 != o2f:
+            ctx.fail("C07:history:stale-after-edit", "after in-place edits metapype_io.to_xml differs from the export of a freshly built identical tree",
+                     dict(rep2, used_tree_output=o2, fresh_tree_output=o2f))
+        if e2 != e2f:
+            ctx.fail("C07:history:stale-after-edit-eml", "after in-place edits export.to_xml differs from the export of a freshly built identical tree",
+                     dict(rep2, used_tree_output=e2, fresh_tree_output=e2f))
+        if in_general_class(sn2):
+            check_general(ctx, sn2, o2, -4)
+        alive.append((node, o2, e2, sn2))
+    # (d) all trees are still alive: export them again, in reverse order
+    for node, o, e, sn in reversed(alive):
+        if io.to_xml(node) != o or export.to_xml(node) != e:
+            ctx.fail("C07:history:cross-tree", "exporting other trees in between changed the output for an unchanged tree",
+                     {"kind": "history", "tree": X.strip_ids(sn), "first": [o, e], "later": [io.to_xml(node), export.to_xml(node)]})
+    # (e) a fresh interpreter, shuffled order
+    jobs = []
+    for node, o, e, sn in alive:
+        jobs.append(({"op": "to_xml", "tree": sn}, o))
+        jobs.append(({"op": "eml", "tree": sn}, e))
+    rng.shuffle(jobs)
+    try:
+        res = X.fresh_run([j for j, _ in jobs])
+        for (j, want), got in zip(jobs, res):
+            ctx.case(("fresh", want), False)
+            if got != want:
+                ctx.fail("C07:history:fresh-interpreter", "a fresh interpreter exports the same tree differently (state leaked between calls in one of the two processes)",
+                         {"kind": "history", "job": j, "in_process_after_history": want, "fresh_interpreter": got})
+    except Exception as ex:
+        ctx.fail("harness:fresh-interpreter", "could not run the fresh-interpreter reference: %s" % ex, {"kind": "harness"}, concrete=False)
+    NL.reset_store()
+    return (pcases, pwants, pmeta), (lcases, lwants, lmeta)
+
+
 def run(ctx):
     from metapype.model import metapype_io as io
     from metapype.eml import export
     built = ctx.build(extra_targets=["theories/Model/XmlRun.v"])
     thorough = ctx.tier == "thorough"
-    n_general = 1500 if thorough else 260
+    n_general = 1500 if thorough else 210
     n_eml = 800 if thorough else 140
-    n_corrupt = 1500 if thorough else 200
+    n_corrupt = 1500 if thorough else 150
     ctx.extra["rule"] = ("random trees (<= 9 nodes, depth <= 3): names from an XML-legal pool incl. non-ASCII, prefixes bound in the node's "
                          "nsmap, child nsmaps containing the parent's prefixes (re-declared / added / reordered), qualified attributes incl. "
                          "xml:lang, values over all XML 1.0 characters (CR, and tab/newline in attribute values, included); for export.to_xml "
@@ -366,10 +554,15 @@ def run(ctx):
     else:
         ctx.note("tests/data/eml.xml not found")
 
+    # history sensitivity + optional parameters (the purity assumption of the models, tested)
+    (p_cases, p_wants, p_meta), (l_cases, l_wants, l_meta) = history_phase(ctx, io, export, thorough)
+
     # (B) exporters: model output == implementation output, code point for code point
     shard = 150
     for label, fn, cases, wants, meta in (("gen", "run_to_xml", gen_cases, gen_wants, gen_meta),
-                                          ("eml", "run_eml", eml_cases, eml_wants, eml_meta)):
+                                          ("eml", "run_eml", eml_cases, eml_wants, eml_meta),
+                                          ("genp", "run_to_xml_p", p_cases, p_wants, p_meta),
+                                          ("emll", "run_eml_l", l_cases, l_wants, l_meta)):
         bad, errors = RL.coq_compare(ctx, label, fn, cases, wants, shard=shard, header=X.HEADER, eqb="pystr_eqb")
         ctx.extra["traces_validated_against_impl"] = ctx.extra.get("traces_validated_against_impl", 0) + len(cases) - len(bad)
         for name, outp in errors:
